@@ -30,6 +30,7 @@ pub struct RunStats {
     pub stub_disagreement: Option<String>,
     pub unexpected_reference_errors: u64,
     pub sources_named: u64,
+    pub wiped_reruns: u64,
     pub duplicate_reports: u64,
     pub rewritten_outputs: u64,
 }
@@ -47,6 +48,9 @@ pub struct Exec {
     /// records of the library (in-process back ends) or the standard error stream of the
     /// binary, with paths spelled canonically
     pub error_logs: Vec<String>,
+    /// a third run, with the same `Resources` value, after the output location was deleted
+    /// behind darklua's back (when requested): outcome and snapshot
+    pub rerun_wiped: Option<(Outcome, Snapshot)>,
 }
 
 fn budget_for(entries: usize) -> u64 {
@@ -102,6 +106,15 @@ pub fn execute(
         } else {
             None
         };
+        let rerun_wiped = match (&rerun, wipe_target(&opts)) {
+            (Some(_), Some(target)) if faults.is_empty() => {
+                store.user_remove(&target);
+                let outcome3 = exec::fresh_process(&resources, &opts);
+                let _ = store.sim().map(|fs| fs.take_log());
+                Some((outcome3, store.snapshot()))
+            }
+            _ => None,
+        };
         let probes = exec::take_probes();
         Exec {
             outcome,
@@ -112,8 +125,18 @@ pub fn execute(
             probes,
             rerun,
             error_logs,
+            rerun_wiped,
         }
     })
+}
+
+/// The output location to delete before the "wiped" rerun: only a separate output location.
+fn wipe_target(opts: &crate::model::OptSpec) -> Option<String> {
+    if separate_output(opts) {
+        opts.output.as_ref().map(|o| gen::normalize(o))
+    } else {
+        None
+    }
 }
 
 /// The process-wide working directory is shared: one real-FS library execution at a time.
@@ -153,6 +176,15 @@ fn execute_real_lib(
         } else {
             None
         };
+        let rerun_wiped = match (&rerun, wipe_target(&opts)) {
+            (Some(_), Some(target)) => {
+                let path = root.join(&target);
+                let _ = std::fs::remove_dir_all(&path).or_else(|_| std::fs::remove_file(&path));
+                let outcome3 = exec::fresh_process(&resources, &opts);
+                Some((outcome3, tierb::snapshot(&root)))
+            }
+            _ => None,
+        };
         let _ = std::env::set_current_dir("/");
         Ok(Exec {
             outcome,
@@ -163,6 +195,7 @@ fn execute_real_lib(
             probes: exec::take_probes(),
             rerun,
             error_logs,
+            rerun_wiped,
         })
     });
     let _ = std::env::set_current_dir("/");
@@ -216,6 +249,7 @@ fn execute_real(
         probes: BTreeMap::new(),
         rerun,
         error_logs,
+        rerun_wiped: None,
     })
 }
 
@@ -496,7 +530,7 @@ pub fn check(scn: &C11Scenario, stats: &mut RunStats) -> Result<Vec<Violation>, 
         scn.hash_seed,
         with_output,
     )?;
-    stats.executions += 1 + a.rerun.is_some() as u64;
+    stats.executions += 1 + a.rerun.is_some() as u64 + a.rerun_wiped.is_some() as u64;
     stats.io_signature = io_signature(&a.log);
     for (idx, _) in &a.fired {
         *stats
@@ -1118,6 +1152,57 @@ pub fn check(scn: &C11Scenario, stats: &mut RunStats) -> Result<Vec<Violation>, 
                         "errors differ between first and second run: {:?} vs {:?}",
                         a.outcome.errors(),
                         outcome2.errors()
+                    ),
+                ));
+            }
+        }
+    }
+
+    // --- determinism: the output location disappears behind darklua's back and the same
+    // `Resources` value is used for one more run: every output comes back as it was
+    if let Some((outcome3, after3)) = &a.rerun_wiped {
+        if let Outcome::Panic(msg) = outcome3 {
+            let location = msg.rsplit(" at ").next().unwrap_or("?");
+            violations.push(Violation::new(
+                P,
+                "bounded",
+                &format!("panic@{}", location),
+                format!("darklua panicked on the run after the output location was deleted: {}", msg),
+            ));
+        } else if !scn.transient
+            && !scn.opts.fail_fast
+            && scn.faults.is_empty()
+            && unwritable_sources(scn, &lay).is_empty()
+            // with a single-file input the layout depends on what the output path is
+            // before the run (existing directory, existing file, nothing)
+            && !scn
+                .entries
+                .iter()
+                .any(|e| e.path == gen::normalize(&scn.opts.input) && e.body != Body::Dir)
+        {
+            stats.wiped_reruns += 1;
+            let mut differing: Vec<String> = Vec::new();
+            for source in &healthy {
+                let m = &lay.mirror[*source];
+                if a.after.get(m) != after3.get(m) {
+                    differing.push(format!(
+                        "`{}`: first run {}, after the wipe {}",
+                        m,
+                        a.after.get(m).map(show_bytes).unwrap_or_else(|| "nothing".to_owned()),
+                        after3.get(m).map(show_bytes).unwrap_or_else(|| "nothing".to_owned())
+                    ));
+                }
+            }
+            if !differing.is_empty() || outcome3.errors() != a.outcome.errors() {
+                violations.push(Violation::new(
+                    P,
+                    "determinism",
+                    "rerun-after-wipe-differs",
+                    format!(
+                        "a run after the output location was deleted differs from the first run: {:?}; errors {:?} vs {:?}",
+                        differing,
+                        a.outcome.errors(),
+                        outcome3.errors()
                     ),
                 ));
             }
@@ -1953,6 +2038,7 @@ impl Property for C11 {
         );
         counters.insert("files_reported_more_than_once".to_owned(), stats.duplicate_reports);
         counters.insert("failing_sources_named_in_report".to_owned(), stats.sources_named);
+        counters.insert("reruns_after_output_wipe".to_owned(), stats.wiped_reruns);
         counters.insert("outputs_written_more_than_once".to_owned(), stats.rewritten_outputs);
         if scn.keep_bad_in_reference {
             counters.insert("convert_require_projects".to_owned(), 1);
